@@ -6,6 +6,8 @@ spec/MC_Bindings.tla     every history of <= N calls over a fabricated oracle: M
 spec/Trace_Bindings.tla  lib / sess / call / obs events: the real sudachipy extension driven by pydrv/c19_py.py, the oracle recorded by `vh c19-lib`
 spec/Cli.tla             the command-line tool: lines, terminators, sentence splitting, the column / wakati formats as functions of the oracle's results
 spec/Trace_Cli.tla       cli events: real runs of the `sudachi` binary on generated multi-line files
+spec/ConfigResolve.tla   assembling a configuration (argument > file > default, anchors in order, no duplicates) and resolving resource names;
+                         MC_ConfigResolve enumerates 4608 scenarios, each is set up on disk for the real Config::new / complete_path
 The extension and the binary are rebuilt from /repo's working tree on every run.
 """
 import json
@@ -340,6 +342,26 @@ def cli_half(out, tier, world, cli, inputs=None, label="cli", only=None):
     return evs, rej
 
 
+def config_pass(out, tier):
+    """ConfigResolve.tla: how -r/-p/-l (Config::new) assemble a configuration and resolve resource names; every scenario TLC enumerates on disk"""
+    lines = []
+    r = C.tlc_mc("MC_ConfigResolve", "MC_ConfigResolve.cfg", workers=4, sink=lines.append, timeout=6000)
+    if r.violated:
+        out.violation(f"model invariant {r.violated} violated in MC_ConfigResolve", {"tlc_tail": r.tail}, signature=f"C19/model/{r.violated}")
+    out.add_mc("MC_ConfigResolve", r, {})
+    ip = os.path.join(W, "cfg_in.txt")
+    with open(ip, "w") as f:
+        f.write("\n".join(l for l in lines if "REPLAY" in l) + "\n")
+    res = json.loads(C.run_vh(["cfg-replay", ip]).stdout.strip().splitlines()[-1])
+    if res["behaviours"] < 1000:
+        raise C.ToolError("configuration scenarios were not replayed")
+    out.cov["config_scenarios_replayed"] = res["behaviours"]
+    out.cov["evaluations"] += res["behaviours"]
+    for m in res["mismatches"][:3]:
+        out.violation("S->I: the real Config differs from what TLC computed: " + json.dumps({k: m.get(k) for k in ("what", "expected", "got")}, ensure_ascii=False)[:400],
+                      {"kind": "s2i", "cmd": ["cfg-replay"], "behaviour": m.get("abstract"), "detail": {k: m[k] for k in m if k != "abstract"}})
+
+
 def replay_case(path, world, cli):
     """re-run the recorded session / command-line run on the current code and validate what it does now"""
     obj = json.load(open(path))
@@ -365,7 +387,7 @@ def replay_case(path, world, cli):
         text = "".join(map(chr, e["input"]))
         _, rej = cli_half(out, "replay", world, cli, inputs=[text], label="cli_replay", only=(e["cfg"], e["args"]))
     else:
-        return C.generic_replay(PID, path)
+        return C.generic_replay(PID, path)       # S->I payloads (configuration scenarios) carry their own replay command
     if rej:
         C.log(f"VIOLATION property={PID} replay={path}")
         return 1
@@ -383,6 +405,7 @@ def run(tier, replay=None):
     out.assumptions = ["TLC/SANY and the JSON bridge are trusted", "the oracle is the core library itself, driven through `vh c19-lib` on the same dictionary and configuration files"]
     events, rej = python_half(out, tier, world)
     cevents, crej = cli_half(out, tier, world, cli)
+    config_pass(out, tier)
     calls = [e for e in events if e["ev"] == "call"]
     need = {
         "a failing call with a mode override": any(e["op"] == "tokenize" and e["res"] == "err" and e["args"]["mode"] != -1 for e in calls),
